@@ -108,6 +108,7 @@ def _binary_pairs(part, op, pairs_a, bset, both_orders):
     ref = REF[op]
     impl = IMPL[op]
     pack = struct.pack_into
+    unpack = struct.unpack_from
     classes = part.classes
     n = 0
     orders = (0, 1) if both_orders else (0,)
@@ -123,6 +124,12 @@ def _binary_pairs(part, op, pairs_a, bset, both_orders):
                     got = ('err', e.err)
                 exp = ref(x, y)
                 n += 1
+                if unpack('<h', abuf)[0] != x or unpack('<h', bbuf)[0] != y:
+                    # every operator here is used on clones or is a pure function of its operands
+                    part.violation('%s/operand-modified' % op,
+                                   '%d %s %d left its operands as %d, %d' % (
+                                       x, op, y, unpack('<h', abuf)[0], unpack('<h', bbuf)[0]),
+                                   {'op': op, 'a': x, 'b': y})
                 if got != exp:
                     if op == 'mod' and x == -32768 and y == -1 and got in (('ok', 0), ('err', OV)):
                         pass  # statement allows either (see _ref_mod)
